@@ -431,8 +431,8 @@ Section Par1Clean.
       str_eqb (ext ix) EXT_PAR = true /\ io_read ix st = (Ok b, st1) /\ read_volume md5 b = Ok v /\
       (v_number v =? 0) = true /\
       load_data md5 ix (filter saved (v_entries v)) st1 = (Ok ds, st2) /\ ds <> [] /\
-      (256 <=? v_count v) = false /\
-      load_vols md5 ix (v_sethash_stored v) 0 (N.to_nat (N.min (256 - v_count v) 99)) 0 [] st2
+      (256 <=? nsaved v) = false /\
+      load_vols md5 ix (v_sethash_stored v) 0 (N.to_nat (N.min (256 - nsaved v) 99)) 0 [] st2
         = (Ok (slots, size), st') /\
       s = {| s_index := ix; s_vol := v; s_saved := filter saved (v_entries v); s_data := ds; s_size := size;
              s_parity := firstn (S (last_some_index slots 0 0)) slots |}.
@@ -444,8 +444,8 @@ Section Par1Clean.
     destruct (v_number v =? 0) eqn:EN; cbn [negb] in H; [|discriminate H].
     destruct (load_data md5 ix (filter saved (v_entries v)) st1) as [[ds|x|q] st2] eqn:EL; try discriminate H.
     destruct ds as [|d0 ds]; [discriminate H|].
-    destruct (256 <=? v_count v) eqn:EC; [discriminate H|].
-    destruct (load_vols md5 ix (v_sethash_stored v) 0 (N.to_nat (N.min (256 - v_count v) 99)) 0 [] st2)
+    fold (nsaved v) in H. destruct (256 <=? nsaved v) eqn:EC; [discriminate H|].
+    destruct (load_vols md5 ix (v_sethash_stored v) 0 (N.to_nat (N.min (256 - nsaved v) 99)) 0 [] st2)
       as [[[slots size]|x|q] st3] eqn:ELV; try discriminate H.
     injection H as <- <-.
     exists b, st1, v, (d0 :: ds), st2, slots, size.
@@ -456,8 +456,8 @@ Section Par1Clean.
     str_eqb (ext ix) EXT_PAR = true -> io_read ix st = (Ok b, st1) -> read_volume md5 b = Ok v ->
     (v_number v =? 0) = true ->
     load_data md5 ix (filter saved (v_entries v)) st1 = (Ok ds, st2) -> ds <> [] ->
-    (256 <=? v_count v) = false ->
-    load_vols md5 ix (v_sethash_stored v) 0 (N.to_nat (N.min (256 - v_count v) 99)) 0 [] st2
+    (256 <=? nsaved v) = false ->
+    load_vols md5 ix (v_sethash_stored v) 0 (N.to_nat (N.min (256 - nsaved v) 99)) 0 [] st2
       = (Ok (slots, size), st') ->
     p1_load md5 ix st =
       (Ok {| s_index := ix; s_vol := v; s_saved := filter saved (v_entries v); s_data := ds; s_size := size;
@@ -465,7 +465,7 @@ Section Par1Clean.
   Proof.
     intros EE ER EV EN EL Hds EC ELV. unfold p1_load.
     rewrite EE. cbn [negb]. rewrite ER, EV, EN. cbn [negb]. rewrite EL.
-    destruct ds as [|d0 ds]; [congruence|]. rewrite EC, ELV. reflexivity.
+    destruct ds as [|d0 ds]; [congruence|]. fold (nsaved v). rewrite EC, ELV. reflexivity.
   Qed.
 
   (* the data slots are a function of the file map *)
@@ -591,14 +591,16 @@ Section Par1Clean.
     induction n as [|n IH]; intros i size acc st slots size' st' H Hinv; cbn [load_vols] in H.
     - injection H as <- <- _. split; [exact Hinv|lia].
     - destruct (io_read (volume_path ix (N.of_nat (S i))) st) as [[b|x|q] st1].
-      + destruct (read_volume md5 b) as [v|x|q]; [| |discriminate H].
-        2:{ (* an unparsable volume: an empty slot, the size is unchanged *)
-            apply IH in H.
-            { destruct H as [A B]. split; [exact A|]. rewrite B, app_length. cbn [length]. lia. }
-            intros y Hin. apply in_app_or in Hin.
-            destruct Hin as [Hin|[E|[]]]; [exact (Hinv y Hin)|discriminate E]. }
-        destruct (negb (bytes_eqb (v_sethash_stored v) sh)); [discriminate H|].
-        destruct (negb (v_number v =? N.of_nat (S i))); [discriminate H|].
+      + (* an unparsable or foreign volume: an empty slot, the size is unchanged *)
+        assert (Skip : load_vols md5 ix sh (S i) n size (acc ++ [None]) st1 = (Ok (slots, size'), st') ->
+                       par_inv slots size' /\ length slots = (length acc + S n)%nat).
+        { intros H'. apply IH in H'.
+          { destruct H' as [A B]. split; [exact A|]. rewrite B, app_length. cbn [length]. lia. }
+          intros y Hin. apply in_app_or in Hin.
+          destruct Hin as [Hin|[E|[]]]; [exact (Hinv y Hin)|discriminate E]. }
+        destruct (read_volume md5 b) as [v|x|q]; [|exact (Skip H)|discriminate H].
+        destruct (negb (bytes_eqb (v_sethash_stored v) sh)); [exact (Skip H)|].
+        destruct (negb (v_number v =? N.of_nat (S i))); [exact (Skip H)|].
         destruct (Nat.eqb (length (v_data v)) 0) eqn:E0; [discriminate H|].
         destruct (negb (Nat.eqb size 0) && negb (Nat.eqb (length (v_data v)) size)) eqn:E1; [discriminate H|].
         apply Nat.eqb_neq in E0.
@@ -838,13 +840,15 @@ Section Par1Clean.
       assert (Hrd' : forall j, (S i < j <= S i + n)%nat ->
                 read_res (io_fs s2) (volume_path ix (N.of_nat j)) = read_res (io_fs s1) (volume_path ix (N.of_nat j))).
       { intros j Hj. rewrite Hf1, Hf2'. apply Hrd. lia. }
+      assert (K : forall sz ac, load_vols md5 ix sh (S i) n sz ac s1 = (Ok r, st') ->
+                exists st2', load_vols md5 ix sh (S i) n sz ac s2 = (Ok r, st2') /\ io_sched st2' = [] /\ io_fs st2' = io_fs st2).
+      { intros sz ac H'. destruct (IH _ _ _ _ _ _ _ Hs1 Hs2' Hrd' H') as (s3 & E3 & Hs3 & Hf3).
+        exists s3. split; [exact E3|split; [exact Hs3|congruence]]. }
       destruct (read_res (io_fs st) (volume_path ix (N.of_nat (S i)))) as [b|x|q].
-      + destruct (read_volume md5 b) as [v|x|q]; [| |discriminate H].
-        2:{ destruct (IH _ _ _ _ _ _ _ Hs1 Hs2' Hrd' H) as (s3 & E3 & Hs3 & Hf3).
-            exists s3. split; [exact E3|split; [exact Hs3|congruence]]. }
-        repeat lazymatch type of H with (if ?c then _ else _) = _ => destruct c; [discriminate H|] end.
-        destruct (IH _ _ _ _ _ _ _ Hs1 Hs2' Hrd' H) as (s3 & E3 & Hs3 & Hf3).
-        exists s3. split; [exact E3|split; [exact Hs3|congruence]].
+      + destruct (read_volume md5 b) as [v|x|q]; [|exact (K _ _ H)|discriminate H].
+        repeat lazymatch type of H with (if ?c then _ else _) = _ =>
+                 destruct c; [first [discriminate H | exact (K _ _ H)]|] end.
+        exact (K _ _ H).
       + destruct x; try discriminate H.
         destruct (IH _ _ _ _ _ _ _ Hs1 Hs2' Hrd' H) as (s3 & E3 & Hs3 & Hf3).
         exists s3. split; [exact E3|split; [exact Hs3|congruence]].
@@ -858,7 +862,7 @@ Section Par1Clean.
   Lemma p1_load_after_writes ix fs s st1 (ws : list (list N * bytes)) :
     p1_load md5 ix (io_init fs []) = (Ok s, st1) ->
     ~ In ix (map fst ws) ->
-    (forall k, 0 < k <= N.min (256 - v_count (s_vol s)) 99 ->
+    (forall k, 0 < k <= N.min (256 - nsaved (s_vol s)) 99 ->
         ~ In (volume_path ix k) (map fst ws) /\
         Forall (fun w : list N * bytes => starts_with (fst w) (volume_path ix k ++ [SLASH]) = false) ws) ->
     (forall e, In e (s_saved s) -> exists data, fs_lookup (apply_writes ws fs) (epath ix e) = Some data) ->
@@ -896,7 +900,7 @@ Section Par1Clean.
     assert (Hds' : map (slot fs' ix) es <> []).
     { intros E0. apply map_eq_nil in E0. apply Hds. rewrite Eds, E0. reflexivity. }
     (* the volumes *)
-    destruct (load_vols_same ix (v_sethash_stored v) (N.to_nat (N.min (256 - v_count v) 99)) 0 0 [] sb sb'
+    destruct (load_vols_same ix (v_sethash_stored v) (N.to_nat (N.min (256 - nsaved v) 99)) 0 0 [] sb sb'
                 (slots, size) st1 Hsb Hsb') as (sc' & ELV' & _ & _).
     { intros j Hj. rewrite Hfb, Hfb', Hfa'. unfold fs'.
       destruct (Hvol (N.of_nat j)) as [Hni Hnd]; [lia|].
@@ -981,7 +985,7 @@ Section Par1Clean.
     NoDup (map (fun e => join2 (dir ix) (e_name e)) (s_saved s)) ->
     (forall e, In e (s_saved s) ->
        epath ix e <> ix /\
-       forall k, 0 < k <= N.min (256 - v_count (s_vol s)) 99 ->
+       forall k, 0 < k <= N.min (256 - nsaved (s_vol s)) 99 ->
          epath ix e <> volume_path ix k /\ starts_with (epath ix e) (volume_path ix k ++ [SLASH]) = false) ->
     exists c ok st2, par1_verify md5 ix all (io_init (io_fs st') []) = (Ok (c, ok), st2) /\ fc_unusable c = 0%nat /\
       forall dbl2 r2 rp2 st3, par1_repair md5 ix dbl2 (io_init (io_fs st') []) = ((r2, rp2), st3) ->
@@ -1049,7 +1053,7 @@ Section Par1Clean.
     NoDup (map (fun e => join2 (dir ix) (e_name e)) (s_saved s)) ->
     (forall e, In e (s_saved s) ->
        join2 (dir ix) (e_name e) <> ix /\
-       forall k, 0 < k <= N.min (256 - v_count (s_vol s)) 99 -> join2 (dir ix) (e_name e) <> volume_path ix k) ->
+       forall k, 0 < k <= N.min (256 - nsaved (s_vol s)) 99 -> join2 (dir ix) (e_name e) <> volume_path ix k) ->
     exists c ok st2, par1_verify md5 ix all (io_init (io_fs st') []) = (Ok (c, ok), st2) /\ fc_unusable c = 0%nat /\
       forall dbl2 r2 rp2 st3, par1_repair md5 ix dbl2 (io_init (io_fs st') []) = ((r2, rp2), st3) ->
         rp2 = [] /\ io_fs st3 = io_fs st'.
@@ -1087,7 +1091,7 @@ Example par1_repair_example :
     NoDup (map (fun e => join2 (dir ex_ix) (e_name e)) (s_saved s)) /\
     (forall e, In e (s_saved s) ->
        join2 (dir ex_ix) (e_name e) <> ex_ix /\
-       forall k, 0 < k <= N.min (256 - v_count (s_vol s)) 99 -> join2 (dir ex_ix) (e_name e) <> volume_path ex_ix k) /\
+       forall k, 0 < k <= N.min (256 - nsaved (s_vol s)) 99 -> join2 (dir ex_ix) (e_name e) <> volume_path ex_ix k) /\
     rp = [[120]] /\ fs_lookup ex_fs [120] = None /\ fs_lookup (io_fs st') [120] = Some [1; 2; 3].
 Proof.
   eexists _, _, _, _.
